@@ -117,6 +117,14 @@ def check(case: dict):
 
     require(isinstance(got, torch.Tensor), "C17:process:type", f"{type(got)}")
     iso = _compare("C17:process", got.numpy(), g, sol, opts)
+    first = got.numpy().copy()
+    core.scribble(got)
+    other = tuple(not x for x in opts) if case.get("flip_between") else opts
+    if other != opts:
+        mid = call("C17:process", process_maze_rasterized_input_target, sm, remove_isolated_cells=other[0], extend_pixels=other[1], endpoints_as_open=other[2])
+        _compare("C17:process", mid.numpy(), g, sol, other)
+    again = call("C17:process", process_maze_rasterized_input_target, sm, remove_isolated_cells=opts[0], extend_pixels=opts[1], endpoints_as_open=opts[2])
+    require(np.array_equal(again.numpy(), first), "C17:process:second-call-differs", f"a second rasterization of the same maze object differs from the first (opts={opts})")
     labels = [f"opts:{int(opts[0])}{int(opts[1])}{int(opts[2])}", "gen:" + case["gen"] if "gen" in case else "hand", f"len{min(len(sol), 3)}"]
     if iso:
         labels.append("has-isolated-pixel")
@@ -136,19 +144,29 @@ def check_dataset(case: dict):
     rds = call("C17:from_base", RasterizedMazeDataset.from_base_MazeDataset, base, added)
     require(len(rds) == len(items), "C17:dataset:len", f"{len(rds)} vs {len(items)}")
     iso = 0
+    verified = []
     for i, it in enumerate(items):
         got = call("C17:getitem", rds.__getitem__, i)
         iso += _compare("C17:getitem", got.numpy(), it["g"], it["sol"], opts)
+        verified.append(got.numpy().copy())  # checked against the model above
         core.scribble(got)
     idxs = case["idxs"]
+    if case.get("long_batch"):
+        # batches longer than any internal chunk size (indices repeat; the dataset is small)
+        idxs = [(k * case["long_batch"][1] + k // 7) % len(items) for k in range(case["long_batch"][0])]
     batch = call("C17:get_batch", rds.get_batch, idxs)
     eff = list(range(len(items))) if idxs is None else idxs
     arr = batch.numpy()
     require(arr.ndim == 5 and arr.shape[0] == 2 and arr.shape[1] == len(eff), "C17:get_batch:shape", f"{arr.shape} for {len(eff)} indices")
     for pos, i in enumerate(eff):
-        single = rds[i].numpy()
-        require(np.array_equal(arr[0, pos], single[0]) and np.array_equal(arr[1, pos], single[1]), "C17:get_batch:order",
-                f"batch position {pos} is not item {i}; idxs={idxs}")
+        # against the images verified above (not against a fresh library call, which would share any defect of repeated rasterization)
+        single = verified[i]
+        require(arr[0, pos].shape == single[0].shape and np.array_equal(arr[0, pos], single[0]) and np.array_equal(arr[1, pos], single[1]), "C17:get_batch:order",
+                f"batch position {pos} (of {len(eff)}) does not hold the images of item {i}; idxs={idxs if len(eff) <= 12 else str(eff[:12]) + '...'}")
+    # and once more item by item, after the batch
+    for i, it in enumerate(items):
+        again = call("C17:getitem", rds.__getitem__, i).numpy()
+        require(np.array_equal(again, verified[i]), "C17:getitem:second-call-differs", f"item {i}: a later rasterization of the same maze differs from the first one")
     return {"nt": len(eff) >= 2 and len(set(eff)) >= 2, "labels": ["batch", "idxs:none" if idxs is None else "idxs:list"]}
 
 
@@ -219,7 +237,7 @@ _OPTS = st.tuples(st.booleans(), st.booleans(), st.booleans()).map(list)
 @st.composite
 def _hand(draw, hi):
     base = draw(G.solved_case(lo=2, hi=hi, square=False))
-    return {"g": base["g"], "sol": base["sol"], "opts": draw(_OPTS)}
+    return {"g": base["g"], "sol": base["sol"], "opts": draw(_OPTS), "flip_between": draw(st.booleans())}
 
 
 @st.composite
@@ -237,7 +255,10 @@ def _dataset(draw):
     items = draw(st.lists(G.solved_case(lo=n, hi=n, square=True), min_size=1, max_size=5))
     items = [{"g": it["g"], "sol": it["sol"]} for it in items]
     idxs = draw(st.one_of(st.none(), st.lists(st.integers(0, len(items) - 1), min_size=1, max_size=8)))
-    return {"n": n, "items": items, "opts": draw(_OPTS), "idxs": idxs, "omit_default": draw(st.booleans())}
+    case = {"n": n, "items": items, "opts": draw(_OPTS), "idxs": idxs, "omit_default": draw(st.booleans())}
+    if draw(st.integers(0, 4)) == 0:
+        case["long_batch"] = [draw(st.sampled_from([257, 300, 513, 1025, 129, 65])), draw(st.integers(1, 5))]
+    return case
 
 
 @st.composite
